@@ -1,7 +1,10 @@
 package main
 
 import (
+	"fmt"
 	"go/ast"
+	"go/types"
+	"sort"
 	"strings"
 
 	"promverif/eng"
@@ -13,6 +16,7 @@ import (
 // the top-level ref (isOOO) would drop it for a composite that merely starts with an out-of-order chunk.
 func runC05Iso(c *eng.Ctx) {
 	p := c.P
+	defer runC05Wrappers(c)
 	f := c.Fn("tsdb:HeadAndOOOChunkReader.chunkOrIterable")
 	n := 0
 	ast.Inspect(f.Body, func(x ast.Node) bool {
@@ -39,4 +43,95 @@ func runC05Iso(c *eng.Ctx) {
 		}
 		return false
 	}), 1)
+}
+
+// C05.R8 (finding F66): the uncommitted tail of a head chunk is hidden from a reader by a wrapper around the chunk's
+// iterator (stopIterator: only the first stopAfter samples).  A wrapper that embeds chunkenc.Iterator and declares
+// its own Next restricts or transforms the sequence of samples; every other method of the interface that advances
+// the iterator (those returning a chunkenc.ValueType: Seek) is promoted from the wrapped iterator unless the wrapper
+// declares it too, and the promoted one advances with the wrapped iterator's own Next — past the restriction.
+func runC05Wrappers(c *eng.Ctx) {
+	p := c.P
+	itf, ok := p.Named("tsdb/chunkenc:Iterator").Underlying().(*types.Interface)
+	if !ok {
+		c.Fail("R8", "tsdb/chunkenc:Iterator", "interface resolved", "", "")
+		return
+	}
+	var advancing []string
+	for i := 0; i < itf.NumMethods(); i++ {
+		sig := itf.Method(i).Type().(*types.Signature)
+		if sig.Results().Len() == 1 && strings.HasSuffix(sig.Results().At(0).Type().String(), "chunkenc.ValueType") {
+			advancing = append(advancing, itf.Method(i).Name())
+		}
+	}
+	sort.Strings(advancing)
+	c.Check("R8", "tsdb/chunkenc:Iterator", "advancing methods of the interface found (Next, Seek)", len(advancing) >= 2, p.Pos(p.Named("tsdb/chunkenc:Iterator").Obj().Pos()), strings.Join(advancing, ", "))
+	wrappers := 0
+	for _, rel := range []string{"tsdb", "storage", "tsdb/chunkenc", "promql"} {
+		if !p.HasPkg(rel) {
+			continue
+		}
+		scope := p.Pkg(rel).Types.Scope()
+		for _, name := range scope.Names() {
+			tn, ok := scope.Lookup(name).(*types.TypeName)
+			if !ok {
+				continue
+			}
+			named, ok := tn.Type().(*types.Named)
+			if !ok {
+				continue
+			}
+			st, ok := named.Underlying().(*types.Struct)
+			if !ok {
+				continue
+			}
+			embeds := false
+			for i := 0; i < st.NumFields(); i++ {
+				if f := st.Field(i); f.Embedded() && types.Identical(f.Type(), p.Named("tsdb/chunkenc:Iterator")) {
+					embeds = true
+				}
+			}
+			if !embeds {
+				continue
+			}
+			own := map[string]bool{}
+			for i := 0; i < named.NumMethods(); i++ {
+				own[named.Method(i).Name()] = true
+			}
+			var declared, missing []string
+			for _, m := range advancing {
+				if own[m] {
+					declared = append(declared, m)
+				} else {
+					missing = append(missing, m)
+				}
+			}
+			if len(declared) == 0 {
+				continue // forwards the whole sequence unchanged
+			}
+			wrappers++
+			c.Check("R8", rel+":"+name, fmt.Sprintf("a wrapper that declares one advancing method of chunkenc.Iterator declares all of them (%s)", strings.Join(advancing, ", ")),
+				len(missing) == 0, p.Pos(tn.Pos()),
+				"promoted from the wrapped iterator: "+strings.Join(missing, ", ")+" — it advances with the wrapped iterator's own Next, past what the wrapper hides: a querier created while a transaction is committing reads its samples through Seek")
+			for _, m := range declared {
+				if m == "Next" || !own["Next"] || rel != "tsdb" { // elsewhere the wrappers transform values and keep the sequence
+					continue
+				}
+				f := c.Fn(rel + ":" + name + "." + m)
+				f.Hasnt("R8", eng.Node("the wrapped iterator's own "+m, func(g *eng.Graph, n ast.Node) bool {
+					call, ok := n.(*ast.CallExpr)
+					if !ok {
+						return false
+					}
+					sel, ok := call.Fun.(*ast.SelectorExpr)
+					if !ok || sel.Sel.Name != m {
+						return false
+					}
+					inner, ok := sel.X.(*ast.SelectorExpr)
+					return ok && inner.Sel.Name == "Iterator"
+				}))
+			}
+		}
+	}
+	c.Check("R8", "tsdb", "the wrapper that hides the uncommitted tail of a head chunk was found", wrappers >= 1, "", fmt.Sprint(wrappers))
 }
